@@ -47,7 +47,12 @@ def _zygote_loop(rfd: int, wfd: int) -> None:
         with os.fdopen(cr, "r", encoding="utf-8") as f:
             data = f.read()
         os.waitpid(pid, 0)
-        wf.write((data or json.dumps({"ok": False, "error": ["child-died", ""]})) + "\n")
+        try:
+            out = json.loads(data) if data else {"ok": False, "error": ["child-died", ""]}
+        except ValueError:
+            out = {"ok": False, "error": ["child-wrote-garbage", data[:100]]}
+        out["id"] = job.get("id")
+        wf.write(json.dumps(out) + "\n")
         wf.flush()
     os._exit(0)
 
@@ -88,12 +93,19 @@ def run(module: str, fn: str, payload: Any, watchdog_s: int = 120) -> Any:
     """Result of module.fn(payload) computed in a fresh child; raises Inconclusive if the child could not answer."""
     if not Z:
         raise core.Inconclusive("zygote not running")
-    Z["w"].write(json.dumps({"module": module, "fn": fn, "payload": payload, "watchdog_s": watchdog_s}, default=repr) + "\n")
+    # every job carries an id: if a case watchdog abandoned an earlier job while it was still running, its late answer is
+    # recognised and dropped here instead of being taken for the answer to this job
+    Z["seq"] = Z.get("seq", 0) + 1
+    jid = Z["seq"]
+    Z["w"].write(json.dumps({"id": jid, "module": module, "fn": fn, "payload": payload, "watchdog_s": watchdog_s}, default=repr) + "\n")
     Z["w"].flush()
-    line = Z["r"].readline()
-    if not line:
-        raise core.Inconclusive("zygote died")
-    out = json.loads(line)
+    while True:
+        line = Z["r"].readline()
+        if not line:
+            raise core.Inconclusive("zygote died")
+        out = json.loads(line)
+        if out.get("id") == jid:
+            break
     if not out.get("ok"):
         raise core.Inconclusive(f"child failed: {out.get('error')}")
     return out["result"]
